@@ -1,10 +1,11 @@
 (** C10 — failure atomicity, cause-preserving errors, handles closed exactly once.  Theorems only.
-    PARTIAL: the lifecycle program is a hand-written abstraction of the entry points' control flow (open, filter,
-    defer Close, engine); goroutine termination is observed (virtual clock run on after the call returns, any
+    The handle discipline of the entry points is ALSO proved on programs extracted from the source on every run
+    (tools/goextract/lifecycle.go -> Generated/Lifecycles.v, last two theorems).  PARTIAL: the fault/cause model
+    ([run_entry]) is a hand-written abstraction of the entry points' control flow (open, filter, defer Close, engine); goroutine termination is observed (virtual clock run on after the call returns, any
     late use of a closed handle is counted), not proved; syscall-level faults inside the real AF_PACKET / raw
     socket code are out of reach of the injectable seam. *)
 From Coq Require Import List ZArith Bool.
-From TR Require Import Pol.Lifecycle Proofs.LifeProofs Eng.Engine Proofs.EngCorollaries.
+From TR Require Import Pol.Lifecycle Proofs.LifeProofs Pol.HandleProg Generated.Lifecycles Proofs.HandleProofs Eng.Engine Proofs.EngCorollaries.
 Import ListNotations.
 Open Scope Z_scope.
 
@@ -30,3 +31,16 @@ Theorem C10_no_partial_path : forall first last acc,
   ~ Forall (fun p => first <= p_ttl p <= last) acc -> run_hops first last acc = EngineError.
 Proof. exact invalid_reply_is_error. Qed.
 Print Assumptions C10_no_partial_path.
+
+(** tie kind A: every function of /repo that calls packets.NewSourceSink, translated on this run into a program over
+    handle operations (open / fallible step + error block / branch / close / defer / return).  For EVERY execution
+    (any subset of the fallible steps failing, any branch taken): an opened pair is closed exactly once each, a pair
+    that was never opened is never closed, nothing is closed before it is opened — and the translator understood
+    every statement that touches the handles (no HUnknown) *)
+Theorem C10_entry_points_close_handles_once : forall p ch, In p all_lifecycles -> okb (exec p ch init_hst) = true.
+Proof. exact entry_points_close_handles_once. Qed.
+Print Assumptions C10_entry_points_close_handles_once.
+
+Theorem C10_entry_points_extracted : (4 <=? length all_lifecycles)%nat = true /\ forallb all_paths_ok all_lifecycles = true.
+Proof. exact extracted_lifecycles_ok. Qed.
+Print Assumptions C10_entry_points_extracted.
